@@ -201,7 +201,37 @@ type WireGen struct {
 	// ForceKeyword: the next positional value (not a key) of the vector being generated spells one
 	// of the command's own option keywords
 	ForceKeyword bool
+	// IntSeq, when set, supplies the values of the small-integer positional arguments (start, stop,
+	// index, count, offset) in order; EnumForce the value of the next enumerated argument
+	IntSeq    []string
+	intPos    int
+	EnumForce string
 }
+
+// SmallInts is the grid the sweep enumerates for index-like arguments.
+var SmallInts = []string{"0", "1", "2", "-1", "-2", "-3", "5", "10"}
+
+func smallIntDst(d string) bool {
+	switch d {
+	case "count", "offset", "start", "stop", "index":
+		return true
+	}
+	return false
+}
+
+// SmallIntArgs counts the positional small-integer arguments of a grammar.
+func (cg *CmdGrammar) SmallIntArgs() int {
+	n := 0
+	for _, c := range cg.Combs {
+		if c.Name == "Int" && smallIntDst(strings.ToLower(c.Dst)) {
+			n++
+		}
+	}
+	return n
+}
+
+// SetIntSeq fixes the small-integer positionals of the next vector.
+func (g *WireGen) SetIntSeq(v ...string) { g.IntSeq = v; g.intPos = 0 }
 
 func collectKeywords(cs []*Comb, out *[]string) {
 	for _, c := range cs {
@@ -279,7 +309,7 @@ func (g *WireGen) val(dst string) string {
 	case "field", "fields":
 		return []string{"f1", "f2", "f3"}[g.pick(3)]
 	case "member", "elem", "elems", "members", "pivot":
-		return []string{"a", "b", "c", "d"}[g.pick(4)]
+		return []string{"a", "b", "c", "d", "zz"}[g.pick(5)] // "zz" is nowhere
 	case "match", "pattern":
 		return []string{"*", "k*", "a*", "?", "[ab]", "f[12]"}[g.pick(6)]
 	}
@@ -341,6 +371,10 @@ func (g *WireGen) genComb(c *Comb, malformed float64, nkeys *int) []string {
 		if !bad && g.CursorZero && d == "count" {
 			return []string{[]string{"100", "0", "1000", "50"}[g.pick(4)]}
 		}
+		if !bad && smallIntDst(d) && g.intPos < len(g.IntSeq) {
+			g.intPos++
+			return []string{g.IntSeq[g.intPos-1]}
+		}
 		if !bad && (d == "count" || d == "offset" || d == "start" || d == "stop" || d == "index") {
 			return []string{[]string{"0", "1", "2", "-1", "-2", "5", "10"}[g.pick(7)]}
 		}
@@ -350,6 +384,14 @@ func (g *WireGen) genComb(c *Comb, malformed float64, nkeys *int) []string {
 	case "Enum":
 		if bad {
 			return []string{"bogus"}
+		}
+		if g.EnumForce != "" {
+			for _, l := range c.Lit {
+				if l == g.EnumForce {
+					g.EnumForce = ""
+					return []string{g.randCase(l)}
+				}
+			}
 		}
 		return []string{g.randCase(c.Lit[g.pick(len(c.Lit))])}
 	case "Strings", "Anys":
@@ -493,7 +535,10 @@ func (g *WireGen) Vector(cg *CmdGrammar, malformed float64) []string {
 
 // OptChoice names one way of writing an option: a non-positional combinator (index in cg.Combs)
 // and, for a OneOf, which of its alternatives.
-type OptChoice struct{ Comb, Alt int }
+type OptChoice struct {
+	Comb, Alt int
+	Enum      string // for a Named option whose value is enumerated: the value to use
+}
 
 // VectorOpts generates a well-formed vector with exactly the option choices listed, in that order.
 func (g *WireGen) VectorOpts(cg *CmdGrammar, which []OptChoice) []string {
@@ -511,7 +556,9 @@ func (g *WireGen) VectorOpts(cg *CmdGrammar, which []OptChoice) []string {
 		if c.Name == "OneOf" && w.Alt >= 0 && w.Alt < len(c.Sub) {
 			c = c.Sub[w.Alt]
 		}
+		g.EnumForce = w.Enum
 		out = append(out, g.genComb(c, 0, &nkeys)...)
+		g.EnumForce = ""
 	}
 	return out
 }
@@ -525,10 +572,14 @@ func (cg *CmdGrammar) Options() []OptChoice {
 		}
 		if c.Name == "OneOf" {
 			for j := range c.Sub {
-				o = append(o, OptChoice{i, j})
+				o = append(o, OptChoice{i, j, ""})
+			}
+		} else if c.Name == "Named" && len(c.Sub) == 1 && c.Sub[0].Name == "Enum" {
+			for _, l := range c.Sub[0].Lit {
+				o = append(o, OptChoice{i, -1, l})
 			}
 		} else {
-			o = append(o, OptChoice{i, -1})
+			o = append(o, OptChoice{i, -1, ""})
 		}
 	}
 	return o
